@@ -35,7 +35,7 @@ STUB = ["choice of the running scenario thread (baton scheduler, line events in 
 ASSUMPTIONS = ["population changes in the two round hooks, plus deletions from inside act of the acting agent itself or of an agent created before it (both have already acted), and creations from inside act: the newcomer is a live agent and is expected to handle and act last in that very step, as the pinned tree does",
                "harness subclasses (models/abm_agents.py) run atomically between pre-emption points"]
 FAULT_KINDS = ["act_raised", "preemption", "population_change_in_hook", "agent_deleted_inside_act"]
-PROBES = ["act_raised_half_way", "run_cancelled_from_inside", "many_scenario_threads", "class_path_manager_under_schedules", "unhandled_event_in_front_of_a_handled_one", "session_over_abm_managers", "session_over_several_abm_managers", "progress_widget", "model_run_again_with_other_run_spec", "deletion_inside_act", "creation_inside_act", "zero_stop_time", "negative_start", "decimal_dt", "empty_population", "collect_off", "threads_interleaved", "driven_steps"]
+PROBES = ["run_again_after_a_failed_run", "act_raised_half_way", "run_cancelled_from_inside", "many_scenario_threads", "class_path_manager_under_schedules", "unhandled_event_in_front_of_a_handled_one", "session_over_abm_managers", "session_over_several_abm_managers", "progress_widget", "model_run_again_with_other_run_spec", "deletion_inside_act", "creation_inside_act", "zero_stop_time", "negative_start", "decimal_dt", "empty_population", "collect_off", "threads_interleaved", "driven_steps"]
 EXHAUSTIVE = {"quick": False, "thorough": False}
 
 
@@ -310,6 +310,27 @@ def execute(case):
                     if bad:
                         res.violate("C12.statistics-recorded-for-an-incomplete-step", {"time": bad[0], "failed_act_of_agent": failed[0][1], "mode": mode,
                                                                                      "dt": sc["dt"], "collect": collect})
+                if mode == "run" and not res.violations:
+                    # the cause is repaired (nothing scripted is left) and the same model is run again: a run is a run
+                    res.probe("run_again_after_a_failed_run")
+                    w_ = m.world
+                    for d_ in (w_.hook_ops, w_.act_ops, w_.state_script, w_.prop_script, w_.sends, w_.hook_sends):
+                        d_.clear()
+                    w_.calls = []
+                    ids_ = [a.id for a in m.agents]
+                    with _quiet():
+                        m.run(collect_data=collect)
+                    exp2 = []
+                    for r_ in range(sc["start"], sc["stop"] + 1):
+                        for s_ in range(spr):
+                            t_ = r_ + s_ * sc["dt"]
+                            exp2.append(("begin", t_, r_, s_))
+                            for i_ in ids_:
+                                exp2 += [("handle", i_, t_), ("act", i_, t_)]
+                            exp2.append(("end", t_, r_, s_))
+                            if collect or (r_ == sc["stop"] and s_ == spr - 1):
+                                exp2.append(("collect", t_))
+                    _cmp(res, "direct (run again after a failed run)", w_.calls, exp2, {"mode": mode, "dt": sc["dt"], "start": sc["start"], "stop": sc["stop"], "collect": collect})
                 exp = None
             elif mode == "run":
                 with _quiet():
